@@ -504,7 +504,10 @@ proof { if k < ss.len() { assert(ss.take(k + 1).drop_last() =~= ss.take(k)); ass
     // whatever is visible further out (a parameter shadows, it never reuses an outer symbol)
     inparam_list is Some ==> (forall|i: int| 0 <= i < inparam_list->Some_0.sp_typed_params().len() ==>
         final(context).in_current_scope((#[trigger] inparam_list->Some_0.sp_typed_params()[i]).sp_name()->Some_0.sp_string())),     //@C09,C07:parameters-bound-in-the-subroutine-scope''')
-    zov['stmt_to_asg_stmt'].update(ret='r', props=P, loops={1: ITER_NB('oq3_it1')},
+    zov['stmt_to_asg_stmt'].update(ret='r', props=P, loops={1: ITER_NB('oq3_it1', '''
+    oq3_v1@.len() + oq3_it1.rest().len() == switch_case_stmt.sp_case_exprs().len(),
+    oq3_it1.rest() =~= switch_case_stmt.sp_case_exprs().skip(oq3_v1@.len() as int),
+    forall|k: int| 0 <= k < oq3_v1@.len() ==> case_ok(#[trigger] switch_case_stmt.sp_case_exprs()[k], oq3_v1@[k]),''')},
         spec='''requires stmt is Include ==> !old(context).global(),      // the `unreachable!` of the Include arm
 ensures grows(*old(context), *final(context)),
     stmt_kind_ok(stmt, r),                                                                  //@C06,C03:statement-kind
